@@ -922,8 +922,13 @@ func c16Structure(p *Prog, r *Report) {
 				recv := false
 				ast.Inspect(cc.Comm, func(y ast.Node) bool {
 					if u, ok := y.(*ast.UnaryExpr); ok && u.Op == token.ARROW {
+						// a receive from the job channel: the pool's field, or a local copy of it (a channel of jobs)
 						if sel, ok := ast.Unparen(u.X).(*ast.SelectorExpr); ok && sel.Sel.Name == poolFields.Ch {
 							recv = true
+						} else if tv, ok := fi.Pkg.TypesInfo.Types[u.X]; ok {
+							if ch, isChan := tv.Type.Underlying().(*types.Chan); isChan && strings.HasSuffix(ch.Elem().String(), "wpool.Event") {
+								recv = true
+							}
 						}
 					}
 					return true
